@@ -201,6 +201,7 @@ func HarnessC10StringCast() {
 		S string
 		N int16
 		B []string
+		M map[string]string
 	}
 	t := ptrify.Pointerify(reflect.TypeOf(cfg{}), reflect.Value{})
 	tfm := NewTransformer(t, &StringCastingMangler{})
@@ -219,6 +220,12 @@ func HarnessC10StringCast() {
 		x := "12"
 		val.FieldByName("N").Set(reflect.ValueOf(&x))
 	}
+	// a map leaf: a key written without a value (after a pair that has one) holds the empty string
+	mMode := zzverif.Choose("M", 4)
+	if mMode != 0 {
+		x := []string{"", "a:x,b:", "a:x,b", `a:x,b:""`}[mMode]
+		val.FieldByName("M").Set(reflect.ValueOf(&x))
+	}
 	out, rerr := tfm.ReverseTranslate(val)
 	zzverif.Assert(rerr == nil, "C10 string casting: ReverseTranslate failed")
 	if rerr != nil {
@@ -230,6 +237,12 @@ func HarnessC10StringCast() {
 	}
 	if sN && !out.FieldByName("N").IsNil() {
 		zzverif.Assert(out.FieldByName("N").Elem().Int() == 12, "C10 string casting: an integer leaf does not hold the parsed value")
+	}
+	mv := out.FieldByName("M")
+	zzverif.Assert(mv.IsNil() == (mMode == 0), "C10 string casting: a map leaf is set although nothing was written to it, or lost although something was")
+	if mMode != 0 && !mv.IsNil() {
+		a, b := mv.MapIndex(reflect.ValueOf("a")), mv.MapIndex(reflect.ValueOf("b"))
+		zzverif.Assert(mv.Len() == 2 && a.IsValid() && a.String() == "x" && b.IsValid() && b.String() == "", "C10 string casting: a map leaf does not hold the pairs written to its translated counterpart (a key without a value holds the empty string)")
 	}
 	zzverif.Reached("c10-stringcast-end")
 }
